@@ -25,7 +25,7 @@ PROPERTIES = {
                  _bounded.lazy("contracts.c11_multipart", "bounded_agreement"), _bounded.lazy("contracts.c11_multipart", "bounded_constructors")],
         explanation="run-time base clients: value conversion, JSON and multipart request construction, variables processing and the "
                     "json/multipart/telemetry dispatchers (each proved against recording stand-ins of its callees), one shared contract "
-                    "instantiated for each of the four bundled clients; upload separation (separate_files) by the exhaustive bounded stand-in",
+                    "instantiated for each of the four bundled clients; upload separation: the recursive closure separate_files under contract (nulled result, frame, unfolding equations, bookkeeping invariant), the enclosing method by the exhaustive bounded stand-in",
         assumptions=["bytes on the wire for multipart are httpx's", "interleavings inside httpx are outside this family"],
     ),
     "C06": dict(
@@ -76,7 +76,7 @@ PROPERTIES = {
     "C09": dict(
         modules=["contracts.c04_package", "contracts.c09_pruning", "contracts.c09_closure"],
         bounded=[_bounded.lazy("contracts.c09_pruning", "bounded_pruning"), _bounded.lazy("contracts.e2e_pruning", "bounded_pruned_packages")],
-        explanation="accumulation of used enums / inputs in the package orchestration and in InputTypesGenerator; closure (dfs) by bounded stand-in",
+        explanation="accumulation of used enums / inputs in the package orchestration and in InputTypesGenerator; the closure (dfs, _get_dependencies_of_type) proved with arbitrary-name clauses and the contract as induction hypothesis; the exhaustive bounded stand-in stays next to it",
         assumptions=["textual identity of retained definitions also depends on autoflake/isort/black (assumed)"],
     ),
     "C10": dict(
@@ -100,7 +100,7 @@ PROPERTIES = {
         bounded=[_bounded.lazy("contracts.c08_fragments", "bounded_fragment_order"), _bounded.lazy("contracts.e2e_fragments", "bounded_scenarios"),
                  _bounded.lazy("contracts.e2e_plugins", "bounded_plugins"), _bounded.lazy("contracts.e2e_results", "bounded_results"),
                  _bounded.lazy("contracts.e2e_fuzz", "bounded_generated_operations")],
-        explanation="@mixin argument parsing and base/import bookkeeping under contract; fragment class ordering by exhaustive bounded stand-in",
+        explanation="@mixin argument parsing, the mixin-vs-unpack decision, the selection-set layer (which spread fragments become bases of a class) and the fragment sorter (every dependency precedes its dependant, ghost rank) under contract; fragment class ordering also by exhaustive bounded stand-in",
         assumptions=["that a class listed as base validates the same payload is pydantic's inheritance (assumed)"],
     ),
     "C16": dict(
@@ -148,7 +148,7 @@ PROPERTIES = {
         modules=["contracts.c01_results", "contracts.c05_result_fields", "contracts.c04_modules", "contracts.c01_inline", "contracts.c01_subtype", "contracts.c01_resolve", "contracts.c01_interface"],
         bounded=[_bounded.lazy("contracts.e2e_results", "bounded_results"), _bounded.lazy("contracts.e2e_pruning", "bounded_pruned_packages"),
                  _bounded.lazy("contracts.e2e_fuzz", "bounded_generated_operations")],
-        explanation="union / non-abstract translators and field implementation under contract; acceptance, typed instances and round trip by the reference-executor stand-in",
+        explanation="union / non-abstract / interface translators, field implementation and the selection-set resolution (fields and bases of a class, classes of an interface field) under contract; acceptance, typed instances and round trip by the reference-executor stand-in",
         assumptions=["pydantic validates the emitted annotation forms as their names say (assumed; exercised by the stand-in)"],
     ),
 }
